@@ -57,25 +57,60 @@ Section Net.
   Definition finished (s : net) : Prop := Forall (fun p => prog p = []) (procs s).
   Definition terminal (s : net) : Prop := forall i t, ~ step s i t.
 
+  (* synchronous (rendezvous) pipes -- a message larger than any buffer: a send and the matching receive
+     happen together, as one step of the sender; the queues are not used *)
+  Definition sfire (s : net) (i : nat) : option net :=
+    match nth_error (procs s) i with
+    | None => None
+    | Some p =>
+        match prog p with
+        | [] => None
+        | ALocal f :: r => Some {| procs := updp (procs s) i {| loc := f (loc p); prog := r |}; qs := qs s |}
+        | ASend j g :: r =>
+            if Nat.eqb i j then None else
+            match nth_error (procs s) j with
+            | Some pj =>
+                match prog pj with
+                | ARecv k h :: rj =>
+                    if Nat.eqb k i
+                    then Some {| procs := updp (updp (procs s) i {| loc := loc p; prog := r |}) j
+                                               {| loc := h (loc pj) (g (loc p)); prog := rj |};
+                                 qs := qs s |}
+                    else None
+                | _ => None
+                end
+            | None => None
+            end
+        | ARecv _ _ :: _ => None
+        end
+    end.
+  Definition sstep (s : net) (i : nat) (t : net) : Prop := sfire s i = Some t.
+
   Inductive path : net -> nat -> net -> Prop :=
   | path0 s : path s 0 s
   | pathS s i t n u : step s i t -> path t n u -> path s (S n) u.
 
   (* executable scheduler: try the processes in the given order, repeatedly *)
-  Fixpoint try_order (s : net) (order : list nat) : option net :=
-    match order with
-    | [] => None
-    | i :: r => match fire s i with Some t => Some t | None => try_order s r end
-    end.
+  Section Sched.
+    Variable f : net -> nat -> option net.
+    Fixpoint try_order_with (s : net) (order : list nat) : option net :=
+      match order with
+      | [] => None
+      | i :: r => match f s i with Some t => Some t | None => try_order_with s r end
+      end.
 
-  Fixpoint run_sched (fuel : nat) (order : list nat) (s : net) : net * nat :=
-    match fuel with
-    | O => (s, 0)
-    | S k => match try_order s order with
-             | None => (s, 0)
-             | Some t => let '(u, n) := run_sched k order t in (u, S n)
-             end
-    end.
+    Fixpoint run_sched_with (fuel : nat) (order : list nat) (s : net) : net * nat :=
+      match fuel with
+      | O => (s, 0)
+      | S k => match try_order_with s order with
+               | None => (s, 0)
+               | Some t => let '(u, n) := run_sched_with k order t in (u, S n)
+               end
+      end.
+  End Sched.
+  Definition try_order := try_order_with fire.
+  Definition run_sched := run_sched_with fire.
+  Definition srun_sched := run_sched_with sfire.
 
   (* a process whose next action is local executes it *)
   Definition adv (pr : proc) : proc :=
